@@ -1068,6 +1068,11 @@ class BuiltinFuncCall(Expr):
                 f'Unknown built-in function: {self.name}')
 
         if callable(func_type):
-            func_type = func_type()
+            try:
+                func_type = func_type()
+            except IndexError:
+                # the argument the type depends on is missing; the
+                # argument count check reports it
+                func_type = Type.UNKNOWN
 
         return func_type
